@@ -61,6 +61,15 @@ func (c *caseT) fanOut(x int) []int {
 	return out
 }
 
+// partialOut: what a failing arrow emits before it fails (Partial cases only)
+func (c *caseT) partialOut(x int) []int {
+	out := c.fanOut(x)
+	if len(out) == 0 {
+		return []int{x*16 + 9}
+	}
+	return out[:(len(out)+1)/2]
+}
+
 // step function of Unfold / value function of Emit
 func (c *caseT) next(x int) int  { return x*3 + int(c.FSeed%5) + 1 }
 func (c *caseT) emitV(i int) int { return (i+1)*16 + int(c.FSeed%16) }
@@ -140,9 +149,22 @@ func (w *world) fPred(x int) (bool, error) {
 	if d := w.c.delay(x); d > 0 {
 		time.Sleep(d)
 	}
+	if w.c.fails(x) {
+		return true, w.c.errFor(x) // a failing predicate counts as "false" whatever it returned
+	}
 	return w.c.pred(x), nil
 }
-func (w *world) fPredW(x int) (bool, error) { w.called(x); return w.c.predW(x), nil }
+func (w *world) fPredW(x int) (bool, error) {
+	w.called(x)
+	if w.c.fails(x) {
+		return true, w.c.errFor(x)
+	}
+	return w.c.predW(x), nil
+}
+
+// okPred / okPredW: the predicate as the stages read it (true and no error)
+func (c *caseT) okPred(x int) bool  { return c.pred(x) && !c.fails(x) }
+func (c *caseT) okPredW(x int) bool { return c.predW(x) && !c.fails(x) }
 func (w *world) fEach(x int) (int, error) {
 	w.called(x)
 	if d := w.c.delay(x); d > 0 {
@@ -159,6 +181,16 @@ func (w *world) fArrow(ctx context.Context, x int, out chan<- int) error {
 		time.Sleep(d)
 	}
 	if w.c.fails(x) {
+		if w.c.Partial {
+			// the arrow hands out part of its output, then fails (the values are identifiable: x*16+j)
+			for _, v := range w.c.partialOut(x) {
+				select {
+				case out <- v:
+				case <-ctx.Done():
+					return nil
+				}
+			}
+		}
 		return w.c.errFor(x)
 	}
 	for _, v := range w.c.fanOut(x) {
@@ -244,6 +276,12 @@ func (w *world) build() {
 		for i := range ins {
 			ins[i] = w.addIn(c.Cap)
 		}
+		if c.DupInput && len(ins) > 0 {
+			ins = append(ins, ins[0]) // the same channel twice: still every element once, closes with it
+		}
+		if c.NilInput {
+			ins = append(ins[:len(ins)/2:len(ins)/2], append([]<-chan int{nil}, ins[len(ins)/2:]...)...)
+		}
 		addOut(w, &w.outs, "out", pipe.Join(ctx, ins...))
 	case "Take":
 		addOut(w, &w.outs, "out", pipe.Take(ctx, w.addIn(c.Cap), c.N))
@@ -306,12 +344,13 @@ func (w *world) build() {
 // ---------------------------------------------------------------- list oracle (uncancelled result for the planned inputs)
 
 type expectT struct {
-	outs    [][]int // per value output, in order
-	errs    []int   // error ids, in order
-	calls   []int   // arguments of the user function, in order (sequential stages)
-	eat     int     // number of input elements the stage may consume at most (-1: all)
-	kind    string  // seq | multiset | interleave
-	partial bool    // fork stage in fail-fast mode: a failing worker stops, the others go on — only sub-multisets are known
+	outs     [][]int      // per value output, in order
+	errs     []int        // error ids, in order
+	calls    []int        // arguments of the user function, in order (sequential stages)
+	eat      int          // number of input elements the stage may consume at most (-1: all)
+	optional map[int]bool // values that may or may not be delivered (partial output of failing arrows): ignored
+	kind     string       // seq | multiset | interleave
+	partial  bool         // fork stage in fail-fast mode: a failing worker stops, the others go on — only sub-multisets are known
 }
 
 func (c *caseT) expect() expectT {
@@ -341,6 +380,14 @@ func (c *caseT) expect() expectT {
 			e.calls = append(e.calls, x)
 			if c.fails(x) {
 				e.errs = append(e.errs, x)
+				if c.Partial {
+					if e.optional == nil {
+						e.optional = map[int]bool{}
+					}
+					for _, v := range c.partialOut(x) {
+						e.optional[v] = true
+					}
+				}
 				if c.Mode != "try" {
 					break
 				}
@@ -353,7 +400,7 @@ func (c *caseT) expect() expectT {
 		var out []int
 		for _, x := range in {
 			e.calls = append(e.calls, x)
-			if c.pred(x) {
+			if c.okPred(x) {
 				out = append(out, x)
 			}
 		}
@@ -362,7 +409,7 @@ func (c *caseT) expect() expectT {
 		var l, r []int
 		for _, x := range in {
 			e.calls = append(e.calls, x)
-			if c.pred(x) {
+			if c.okPred(x) {
 				l = append(l, x)
 			} else {
 				r = append(r, x)
@@ -384,7 +431,7 @@ func (c *caseT) expect() expectT {
 		for _, x := range in {
 			e.calls = append(e.calls, x)
 			e.eat++
-			if !c.predW(x) {
+			if !c.okPredW(x) {
 				break
 			}
 			out = append(out, x)
@@ -408,7 +455,7 @@ func (c *caseT) expect() expectT {
 			c2 := *c
 			c2.Mode = "try"
 			e2 := c2.expect()
-			e.outs, e.errs, e.partial = e2.outs, e2.errs, true
+			e.outs, e.errs, e.partial, e.optional = e2.outs, e2.errs, true, e2.optional
 		}
 	}
 	return e
